@@ -35,7 +35,7 @@ ASSUMPTIONS = [
     'reversed TIF files whose first next-word is 0x100 or 0x10000 are excluded (two byte orders indistinguishable)',
     'no stored-byte fault: the statement is about files written conformantly',
 ]
-PROBES = ['read_ends_at_pr_boundary', 'read_ends_at_record_boundary', 'skip_across_ge2_pr', 'seek_back_after_eof', 'seek_partial_seek_same',
+PROBES = ['record_number_wraps', 'read_ends_at_pr_boundary', 'read_ends_at_record_boundary', 'skip_across_ge2_pr', 'seek_back_after_eof', 'seek_partial_seek_same',
           'payload_lt_one_pr', 'pr_with_1_byte', 'tif_reversed', 'tif_normal', 'none_at_record_end', 'run_on_into_next', 'eof_reached',
           'foreign_chunking', 'written_reread', 'strip_tif', 'seek_cur', 'tell_checked', 'all_trailers']
 
@@ -90,7 +90,7 @@ def _tail(model):
 
 def drive_writer(res, model):
     """(1) real writer vs producer (greedy chunking). Returns the written bytes or None."""
-    greedy = dict(model, tif='none' if model['tif'] == 'none' else 'normal',
+    greedy = dict(model, rec_start=0, tif='none' if model['tif'] == 'none' else 'normal',
                   records=[{k: v for k, v in r.items() if k != 'chunks'} for r in model['records']])
     exp, lay = L.build(greedy)
     out = SimFile(b'', EventClock(), writable=True, name='written.lis')
@@ -184,6 +184,8 @@ def execute(scenario):
         res.probe('all_trailers')
     if any(r.get('chunks') for r in model['records']):
         res.probe('foreign_chunking')
+    if model['rec'] and model.get('rec_start', 0) + sum(len(r['prs']) for r in recs) > 65536:
+        res.probe('record_number_wraps')
     for r in recs:
         if len(r['prs']) == 1 and r['prs'][0]['data_len'] < mp:
             res.probe('payload_lt_one_pr')
